@@ -21,10 +21,12 @@ is the cookie, the rest are attributes) and a reference model written from the s
 * read-back: a second request carrying ``Cookie: name=<raw value taken from the Set-Cookie line>; ...``
   makes ``get_cookie(name)`` return the value that was set (``get_signed_cookie`` for signed cookies, ""
   for cleared ones) and ``request.cookies`` hold exactly those names.
-EITHER (labelled, not asserted): the state left behind by a call that raised; empty-string attributes
-(treated as "not requested"); edge whitespace in legacy kwarg values (a reader strips it).
+* a call that raised has no effect at all: the cookies set by earlier successful calls (same name
+  included) are still emitted exactly as set, and nothing of the rejected call is.
+EITHER (labelled, not asserted): empty-string attributes (treated as "not requested"); edge whitespace in
+legacy kwarg values (a reader strips it).
 
-Open findings on the current tree (known_findings.d/C25.json, findings_inbox/):
+Findings of this check, all repaired in /repo since (their replays are regressions now):
   * C25.no_response.cookie_line_unencodable (F7)  — see findings_inbox/C07-cookie-line-unencodable-hang.md
   * C25.attributes_differ.legacy_kwarg_semicolon   — ``Domain="x; Secure"`` via a mixed-case kwarg bypasses the check
   * C25.attributes_differ.falsy_value_dropped      — ``max_age=0`` / ``expires=0`` are silently dropped
@@ -38,6 +40,11 @@ Sensitivity (scratch copies, quick tier, seed 1):
   * web.py set_cookie path default "/" -> ""                         -> caught (attributes_differ: missing:path)
   * httputil.py _unquote_replace ignores octal escapes               -> caught (readback_value: ";" read back wrong)
   * web.py httponly only honoured together with secure               -> caught (attributes_differ: missing:httponly)
+  * web.py set_cookie drops the earlier same-name morsel *before* validating the new one, so a rejected
+    call (caught by the application) deletes the cookie an earlier call had set      -> caught
+    (rejected_call_removed_earlier_cookie: set('a','ok'); set('a', EURO SIGN)).  Missed before: what a raising call
+    left behind was treated as unspecified; it is now asserted to be nothing (a dedicated generator arm produces
+    accepted-then-rejected calls for one name, 17 kinds of rejection, label raise_after_accept_same_name).
 """
 import calendar
 import datetime
@@ -58,7 +65,8 @@ RULE = (
     "ones; value = text <=6 over a separator/control/latin-1/non-latin-1 alphabet or shaped quoted strings, "
     "str or bytes; each attribute independently drawn incl. invalid ones) executed by one handler, followed by "
     "a read-back request; non-trivial = a value or attribute contains a separator, quote or non-ASCII "
-    "character, or one name is set twice; distinct = SHA-1 of the op list"
+    "character, or one name is set twice; one case in four is an accepted call followed by a rejected call "
+    "for the same name; distinct = SHA-1 of the op list"
 )
 ASSUMPTIONS = [
     "reference attribute model written from the set_cookie / clear_cookie / set_signed_cookie docstrings",
@@ -301,13 +309,17 @@ def evaluate(ops):
 
     # ---- model: last successful call per name
     model = {}
-    tainted = set()  # names touched by a call that raised: state unspecified (EITHER)
+    # A call that raised must have NO effect on the response: "either that call raises or ..." leaves no
+    # room for a rejected call changing what earlier, successful calls emit.
+    accepted_before = set()
     count = {}
     for op, rz, tm in zip(ops, raised, times):
         name = op[1]
         if rz is not None:
-            tainted.add(name)
+            if name in accepted_before:
+                labels.add("raise_after_accept_same_name")
             continue
+        accepted_before.add(name)
         count[name] = count.get(name, 0) + 1
         model[name] = (op, tm)
     if any(n >= 2 for n in count.values()):
@@ -325,14 +337,14 @@ def evaluate(ops):
             return problem("C25.duplicate_set_cookie_for_name", {"name": name})
         lines[name] = (raw, attrs, v)
     for name in lines:
-        if name not in model and name not in tainted:
+        if name not in model:
             return problem("C25.extra_cookie", {"name": name})
     read = []
     for name, (op, tm) in model.items():
         if name not in lines:
-            if name in tainted:  # EITHER: a later call for this name raised; what it left behind is unspecified
-                labels.add("raised_partial_state")
-                continue
+            if "raise_after_accept_same_name" in labels and any(
+                    rz is not None and op2[1] == name for op2, rz in zip(ops, raised)):
+                return problem("C25.rejected_call_removed_earlier_cookie", {"name": name})
             return problem("C25.cookie_missing", {"name": name})
         raw, attrs, line = lines[name]
         want = model_attrs(op, tm)
@@ -340,17 +352,16 @@ def evaluate(ops):
         for k, v in attrs:
             lk = k.lower()
             if lk in got:
-                p = attr_problem(op, "C25.attribute_twice", {"name": name, "attr": k, "line": line}, name in tainted)
+                p = attr_problem(op, "C25.attribute_twice", {"name": name, "attr": k, "line": line}, False)
                 if p:
                     return problem(*p)
             got[lk] = v
         bad = compare_attrs(want, got, labels)
         if bad:
             p = attr_problem(op, "C25.attributes_differ", {"name": name, "line": line, "why": bad, "want": repr(want)},
-                             name in tainted)
+                             False)
             if p:
                 return problem(*p)
-            labels.add("raised_partial_state")
         read.append((name, op[0] == "signed", raw, op))
         if raw.startswith('"') and op[0] == "set" and as_text(op[2]) not in ("",):
             labels.add("quoted_value")
@@ -508,7 +519,36 @@ def _op():
     return st.one_of(build("set"), build("set"), build("set"), build("signed"), build("clear"))
 
 
-case_s = st.lists(_op(), min_size=1, max_size=3)
+GOOD_VALUES = ["ok", "1", 'x;y"z', "a,b", "\xe9"]
+GOOD_ATTRS = [{}, {"domain": "example.com"}, {"path": "/x", "secure": True}, {"max_age": 5, "httponly": True},
+              {"samesite": "Lax", "expires": ("num", 1700000000)}]
+REJECTED = [  # (api, value, attrs): every way a call can be refused
+    ("set", "\u20ac", {}), ("set", "a b", {}), ("set", "\u2603", {"domain": "example.com"}),
+    ("set", "v", {"domain": "a;b"}), ("set", "v", {"domain": "\u2603.com"}), ("set", "v", {"path": "/a b"}),
+    ("set", "v", {"path": "/\u2603"}), ("set", "v", {"samesite": "a;b"}), ("set", "v", {"legacy": {"Version": "x "}}),
+    ("set", "v", {"legacy": {"Domain": "a; Secure"}}), ("set", "v", {"legacy": {"Version": "1\r\nX: y"}}),
+    ("set", b"\xff", {}), ("signed", "v", {"domain": "\u2603.com"}), ("signed", "v", {"path": "/a;b"}),
+    ("clear", "", {"domain": "\u2603.com"}), ("clear", "", {"path": "/a b"}), ("clear", "", {"expires": ("num", 5)}),
+]
+
+
+def _accept_then_reject():
+    """An accepted call, then a rejected call for the SAME name (the handler catches the exception),
+    optionally followed by / preceded by an unrelated call."""
+    def build(name, api1, v1, a1, rej, other, other_first):
+        first = (api1, name, "" if api1 == "clear" else v1, dict(a1))
+        second = (rej[0], name, rej[1], dict(rej[2]))
+        ops = [first, second]
+        if other is not None:
+            ops = [other] + ops if other_first else ops + [other]
+        return ops
+    return st.builds(build, st.sampled_from(GOOD_NAMES), st.sampled_from(["set", "set", "signed", "clear"]),
+                     st.sampled_from(GOOD_VALUES), st.sampled_from(GOOD_ATTRS), st.sampled_from(REJECTED),
+                     st.one_of(st.none(), _op()), st.booleans())
+
+
+case_s = st.one_of(st.lists(_op(), min_size=1, max_size=3), st.lists(_op(), min_size=1, max_size=3),
+                   st.lists(_op(), min_size=1, max_size=3), _accept_then_reject())
 
 PARTS = {"main": run_case}
 
